@@ -258,6 +258,9 @@ func runC18(c *Ctx) {
 	// notifications and every send)
 	c.Rule("R6", "gossip locks released on every exit", 5)
 	checkUnlocks(c, "R6", []string{"gossip"})
+	peerListsUnderTopologyLock(c, "R4")
+	topologyChangedByNotificationsOnly(c, "R4")
+	loopGoroutinesOwnTheirVariables(c, "R2", []string{"gossip"})
 	// ---- R5
 	{
 		n, bad := 0, 0
